@@ -618,33 +618,42 @@ impl KeyPackageStorage for SimKpStore {
 pub struct SimPskStore {
     /// what the application registered (the model's view: id -> value)
     pub map: Arc<Mutex<BTreeMap<Vec<u8>, Vec<u8>>>>,
-    /// the store the library reads: the in-memory PSK storage that ships with mls-rs (real code)
-    pub real: mls_rs::storage_provider::in_memory::InMemoryPreSharedKeyStorage,
+    /// the store the library reads in the worlds that replace PSK values (C18): the in-memory PSK storage that ships
+    /// with mls-rs (real code). Elsewhere the library reads the map above - creating the shipped store (a hash map)
+    /// in every world would shift the hash-map keys, and with them the schedules, of all other properties.
+    pub real: Option<mls_rs::storage_provider::in_memory::InMemoryPreSharedKeyStorage>,
     pub faults: Faults,
 }
 
 impl SimPskStore {
-    pub fn new(faults: Faults) -> Self {
+    pub fn new(faults: Faults, shipped_store: bool) -> Self {
         SimPskStore {
             map: Default::default(),
-            real: Default::default(),
+            real: shipped_store.then(Default::default),
             faults,
         }
     }
     pub fn put(&self, id: &[u8], value: &[u8]) {
         self.map.lock().unwrap().insert(id.to_vec(), value.to_vec());
-        self.real.clone().insert(ExternalPskId::new(id.to_vec()), PreSharedKey::new(value.to_vec()));
+        if let Some(real) = &self.real {
+            real.clone().insert(ExternalPskId::new(id.to_vec()), PreSharedKey::new(value.to_vec()));
+        }
     }
     pub fn remove(&self, id: &[u8]) {
         self.map.lock().unwrap().remove(id);
-        self.real.clone().delete(&ExternalPskId::new(id.to_vec()));
+        if let Some(real) = &self.real {
+            real.clone().delete(&ExternalPskId::new(id.to_vec()));
+        }
     }
     pub fn peek(&self, id: &[u8]) -> Option<Vec<u8>> {
         self.map.lock().unwrap().get(id).cloned()
     }
     /// what the store hands to the library for this id (no fault gate)
     pub fn stored(&self, id: &[u8]) -> Option<Vec<u8>> {
-        self.real.get(&ExternalPskId::new(id.to_vec())).map(|p| p.raw_value().to_vec())
+        match &self.real {
+            Some(real) => real.get(&ExternalPskId::new(id.to_vec())).map(|p| p.raw_value().to_vec()),
+            None => self.peek(id),
+        }
     }
     /// everything another store holds is registered here as well (a new device of the same user)
     pub fn copy_from(&self, other: &SimPskStore) {
@@ -654,7 +663,7 @@ impl SimPskStore {
         }
     }
     pub fn fork(&self, faults: Faults) -> Self {
-        let out = SimPskStore::new(faults);
+        let out = SimPskStore::new(faults, self.real.is_some());
         out.copy_from(self);
         out
     }
@@ -664,7 +673,10 @@ impl PreSharedKeyStorage for SimPskStore {
     type Error = SimError;
     fn get(&self, id: &ExternalPskId) -> Result<Option<PreSharedKey>, Self::Error> {
         gate(&self.faults, "psk.get")?;
-        Ok(self.real.get(id))
+        Ok(match &self.real {
+            Some(real) => real.get(id),
+            None => self.map.lock().unwrap().get(id.as_ref()).map(|v| PreSharedKey::new(v.clone())),
+        })
     }
 }
 
